@@ -1141,6 +1141,10 @@ class TrajectoryStore:
         if '_index' in base_nc_file.dataset[0].groups:
             self.index_group = base_nc_file.dataset[0].groups['_index']
             self.indexable = True
+        else:
+            # An existing file without an index holds trajectories without
+            # flight IDs, so the store is definitely not indexable.
+            self.indexable = False
 
         # Open any associated NetCDF files.
         for name in self.associated_files:
